@@ -512,6 +512,37 @@ class Fn:
         pl = x.get("copy") or x.get("move") or x
         return self._place_expr(pl, frozenset(), depth)
 
+    def root_defs(self, local):
+        """Definitions (block, expr) of `local`, looking through chains of plain
+        whole-local copies/moves, so that the per-edge definitions of a user
+        variable are seen individually instead of as one phi."""
+        seen = set()
+        while local not in seen:
+            seen.add(local)
+            ds = [d for d in self.defs(local) if not d[0]]
+            if len(ds) == 1 and ds[0][3] == "rv" and ds[0][4]["k"] == "use":
+                pl = ds[0][4]["a"].get("copy") or ds[0][4]["a"].get("move")
+                if pl and not pl["p"] and not (1 <= pl["l"] <= self.nargs):
+                    local = pl["l"]
+                    continue
+            break
+        out = []
+        for (dp, b, i, kind, payload) in self.defs(local):
+            if dp:
+                continue
+            if kind == "rv":
+                out.append((b, self._rvalue(payload, frozenset([local]), 40, b)))
+            elif kind == "call":
+                out.append((b, self._call_expr(payload, b, frozenset([local]), 40)))
+        return out
+
+    def lvalue(self, place, depth=48):
+        """Address-like expression of an assigned place: the base local's value
+        expression with the projections applied symbolically (no def lookup of
+        the projected place itself)."""
+        base = self._place_expr({"l": place["l"], "p": []}, frozenset(), depth)
+        return _apply_proj(base, place["p"], self, frozenset(), depth)
+
     def local_expr(self, l, depth=48):
         return self._place_expr({"l": l, "p": []}, frozenset(), depth)
 
@@ -568,7 +599,8 @@ class Fn:
                 else:
                     base = ("setdiscr", payload)
                 cands.append(_apply_proj(base, rest, self, seen2, depth))
-            elif len(dp) > len(proj) and all(_pelem_eq(dp[j], proj[j]) for j in range(len(proj))):
+            elif len(dp) > len(proj) and all(_pelem_eq(dp[j], proj[j]) for j in range(len(proj))) \
+                    and "*" not in [x for x in dp[len(proj):] if isinstance(x, str)]:
                 # a sub-place is assigned: whole value partially defined here
                 if kind == "rv":
                     sub = self._rvalue(payload, seen2, depth - 1, b)
